@@ -243,7 +243,22 @@ def judge_device(rec, pname, P, entry, sizes):
         rec.hist("uncompiled_rejections", f"{pname}:{kind}:{type(e).__name__}")
         return
     try:
-        P["compile"](top)
+        try:
+            P["compile"](top)
+        except Exception as e0:
+            if not (variant and is_descriptive(e0) and sizes != "frac-mult"):
+                raise
+            # the sibling instance asking for other fingers / multiplier may be a request the device cannot satisfy (a device with no
+            # finger-count parameter): a descriptive refusal is then the stated outcome - provided the design compiles without it,
+            # and the device indeed has no such parameter
+            top, leaf = make_design(prim, params, label, {"mult": 5})
+            before = h.to_proto(top)
+            P["compile"](top)
+            xp = leaf.instances["x"].of.params
+            if (("nf" in xp) if isinstance(xp, dict) else hasattr(xp, "nf")):
+                raise e0
+            rec.count("compile.fingers-refused-by-device-without-fingers")
+            variant = {"mult": 5}
     except Exception as e:
         if not is_descriptive(e):
             rec.violation(f"compile-raises-undescriptive:{type(e).__name__}", f"[{label}] compile raised {type(e).__name__}: {str(e)[:100]!r}",
@@ -290,6 +305,10 @@ def judge_device(rec, pname, P, entry, sizes):
         zhas = (lambda k: k in zp) if isinstance(zp, dict) else (lambda k: hasattr(zp, k))
         if zhas("nf") and not same_value(zget("nf"), 2):
             rec.violation("device-fingers-wrong", f"[{label}] an instance requesting nf=2 got device parameter nf={zget('nf')}", case=case, pdk=pname)
+        if "nf" in variant and not zhas("nf") and not any(zhas(k) for k in ("nfin", "nfing", "fingers", "nfinger")):
+            rec.violation("device-fingers-dropped", f"[{label}] an instance requesting nf=2 was compiled to {leaf.instances['z'].of.module.name}, whose parameters "
+                                                    f"{sorted(zp) if isinstance(zp, dict) else sorted(getattr(type(zp), '__params__', {}))} hold no finger count: two fingers "
+                                                    f"became one silently", case=case, pdk=pname, device_kind=kind)
         zm = [k for k in ("mult", "m") if zhas(k)]
         if zm and not any(same_value(zget(k), 5) for k in zm):
             rec.violation("device-multiplier-wrong", f"[{label}] an instance requesting mult=5 got {[(k, str(zget(k))) for k in zm]}", case=case, pdk=pname,
